@@ -95,6 +95,8 @@ class Recorder:
         self.disc = {}
         self.excluded = []
         self.notes = {}
+        self.known = []
+        self._matcher = None
 
     def label(self, *names):
         for n in names:
@@ -121,6 +123,18 @@ class Recorder:
 
     def note(self, key, val):
         self.notes[key] = val
+
+    def soft(self, msg, tags=None, detail=None):
+        """Report a deviation inside a longer case (history).
+
+        If it matches a *known* finding it is counted and the check may go on
+        (returns the finding key); otherwise it is raised as a Violation.
+        """
+        key = self._matcher(tags or {}) if self._matcher else None
+        if key is None:
+            raise Violation(msg, tags=tags, detail=detail)
+        self.known.append((key, msg))
+        return key
 
 
 class NullRecorder(Recorder):
